@@ -154,8 +154,48 @@ CoverT == [cc \in 1..Len(Crates) |-> CoverRows(cc) \cup Repair(cc)]
 Cover(cc) == CoverT[cc]
 
 ASSUME \A cc \in 1..Len(Crates) : PairwiseCovered(cc, Cover(cc))
+
+(* Strength 3 over the CORE features of a crate that also has auxiliary ones (a guard such as  *)
+(* any(tokio, async-std) narrowed to tokio breaks only where wrath and async-std are on and    *)
+(* tokio is off - no pair of settings exhibits it).  Construction: the first-order Reed-Muller *)
+(* code RM(1,m): core feature number j is a point of the affine space AG(m,2), a row is an     *)
+(* affine function a0 + a1 x1 + .. + am xm evaluated at the points.  Any three distinct points *)
+(* of AG(m,2) are affinely independent, so the 2^(m+1) rows show every on/off pattern of every *)
+(* three columns (an orthogonal array of strength 3).  Auxiliary features are off in these     *)
+(* rows.  As above the construction is not trusted: TripleCovered is CHECKED by TLC on the     *)
+(* closed configurations, and feasible triples lost to implications are repaired.              *)
+CoreSeq(cc) == SelectSeq(Crates[cc].user, LAMBDA f : f \in Core(cc))
+AffM(k) == IF k <= 8 THEN 3 ELSE IF k <= 16 THEN 4 ELSE 5
+AffBit(a, j, m) == (((a \div Pow2(m)) % 2) +
+                    Cardinality({b \in 0..(m - 1) : (a \div Pow2(b)) % 2 = 1 /\ (j \div Pow2(b)) % 2 = 1})) % 2
+Cover3Rows(cc) ==
+    LET u == CoreSeq(cc)
+        k == Len(u)
+        m == AffM(k)
+    IN  IF Aux(cc) = {} \/ k < 3 THEN {}
+        ELSE {Close({u[j] : j \in {jj \in 1..k : AffBit(a, jj - 1, m) = 1}}) : a \in 0..(Pow2(m + 1) - 1)}
+
+Matching3(cc, f, bf, g, bg, h, bh) ==
+    {FF \in AllConfigs(cc) : (f \in FF) = bf /\ (g \in FF) = bg /\ (h \in FF) = bh}
+Covers3(rows, f, bf, g, bg, h, bh) ==
+    \E FF \in rows : (f \in FF) = bf /\ (g \in FF) = bg /\ (h \in FF) = bh
+Triples(cc) == {p \in Core(cc) \X BOOLEAN \X Core(cc) \X BOOLEAN \X Core(cc) \X BOOLEAN :
+                   p[1] # p[3] /\ p[1] # p[5] /\ p[3] # p[5]}
+Repair3(cc) ==
+    IF Cover3Rows(cc) = {} THEN {}
+    ELSE {Smallest(Matching3(cc, q[1], q[2], q[3], q[4], q[5], q[6])) :
+            q \in {p \in Triples(cc) :
+                      /\ Matching3(cc, p[1], p[2], p[3], p[4], p[5], p[6]) # {}
+                      /\ ~Covers3(Cover3Rows(cc), p[1], p[2], p[3], p[4], p[5], p[6])}}
+Cover3T == [cc \in 1..Len(Crates) |-> Cover3Rows(cc) \cup Repair3(cc)]
+Cover3(cc) == Cover3T[cc]
+TripleCovered(cc, rows) ==
+    \A p \in Triples(cc) :
+        Matching3(cc, p[1], p[2], p[3], p[4], p[5], p[6]) # {} => Covers3(rows, p[1], p[2], p[3], p[4], p[5], p[6])
+ASSUME \A cc \in 1..Len(Crates) : Cover3(cc) # {} => TripleCovered(cc, Cover3(cc))
+
 QuickT == [cc \in 1..Len(Crates) |->
-             Cover(cc) \cup Singles(cc) \cup {Full(cc), Close(Range(Crates[cc].dflt))} \cup DocSets(cc)]
+             Cover(cc) \cup Cover3(cc) \cup Singles(cc) \cup {Full(cc), Close(Range(Crates[cc].dflt))} \cup DocSets(cc)]
 QuickSet(cc) == QuickT[cc]
 
 (* thorough: the whole powerset of the core features, once with the auxiliary features *)
@@ -188,7 +228,7 @@ Record ==
          closed |-> open = {}, nopen |-> Cardinality(open),
          open |-> SetToSeq({Witness(k) : k \in some}),
          quick |-> F \in QuickSet(c), thorough |-> F \in ThoroughSet(c),
-         cover |-> F \in Cover(c),
+         cover |-> F \in Cover(c), cover3 |-> F \in Cover3(c),
          inert |-> IF F = {} THEN SetToSeq(Inert(c)) ELSE <<>>]
 
 Emit == PrintT("REPLAY " \o ToJson(Record))
